@@ -301,6 +301,7 @@ def rule_fg(ck, R):
                 bad = 'sequence number passed is %s, expected the session counter' % fmt(a[5])
             if a[6] != ('v', 'address') or strip_cast(a[7]) != ('v', 'n'):
                 bad = 'address/size passed are %s/%s' % (fmt(a[6]), fmt(a[7]))
+            bad = bad or emitted_header(eh[0], smc[0])
             sts = [e for e in p.stores() if e.name == seq]
             if len(sts) != 1:
                 bad = 'sequence counter stored %d times per request (expected exactly one increment)' % len(sts)
@@ -372,6 +373,18 @@ def rule_fg(ck, R):
                    'acknowledgement echoes sequence/address, checksums exactly the payload it sends with the variant of the memory width' if bad is None else bad)
 
 
+def emitted_header(eh, smc):
+    """send_memory must be handed the buffer encode_header filled and 2 * (its word count) octets"""
+    if strip_cast(smc.args[1]) != strip_cast(eh.args[0]):
+        return 'send_memory sends %s, the header was built in %s' % (fmt(smc.args[1]), fmt(eh.args[0]))
+    hs = strip_cast(smc.args[2])
+    if hs not in (('*', C(2), eh.result), ('*', eh.result, C(2))):
+        d = L(hs) - L(eh.result).scale(2)
+        if not (d.is_const() and d.c == 0):
+            return 'header length handed to send_memory is %s, expected 2 * the word count encode_header returned' % fmt(smc.args[2])
+    return None
+
+
 def rule_h(ck, R):
     """payload class of every response emission site (doc 3.1)"""
     E = R.E
@@ -436,6 +449,22 @@ def rule_h(ck, R):
                 bad = 'payload of %s octets sent' % fmt(smc[0].args[4])
             if 'header.sequence' not in fmt(eh[0].args[5]) or 'header.address' not in fmt(eh[0].args[6]):
                 bad = 'does not echo sequence/address'
+            bad = bad or emitted_header(eh[0], smc[0])
+            # the checksum announced in the header is computed over a separate image of the payload: both images must be
+            # the same big-endian serialisation of pl, and the checksum must cover exactly the four payload octets
+            crcs = [e for e in p.calls() if 'crc16' in e.name]
+            if len(crcs) != 1 or not crcs[0].name.endswith('_u16') or crcs[0].args[1] != C(2):
+                bad = bad or 'payload checksum is not taken over exactly two 16-bit words (%s)' % [(e.name, fmt(e.args[1])) for e in crcs]
+            elif strip_cast(eh[0].args[8]) != crcs[0].result:
+                bad = bad or 'the checksum passed to encode_header is %s, not the one just computed' % fmt(eh[0].args[8])
+            else:
+                dests = [strip_cast(s_.args[0]) for s_ in sets]
+                before = [strip_cast(s_.args[0]) for s_ in sets if p.effects.index(s_) < p.effects.index(crcs[0])]
+                if strip_cast(crcs[0].args[0]) not in before:
+                    bad = bad or 'the image the payload checksum is computed over (%s) has not been filled from pl before' % fmt(crcs[0].args[0])
+                sent_before = [strip_cast(s_.args[0]) for s_ in sets if p.effects.index(s_) < p.effects.index(smc[0])]
+                if strip_cast(smc[0].args[3]) not in sent_before:
+                    bad = bad or 'the payload handed to send_memory (%s) has not been filled from pl' % fmt(smc[0].args[3])
         ck.verdict(bad is None, 'C08.h', 'send_resp_32', R.where('send_resp_32'), 'four-octet big-endian payload, block size 4 in octet semantics, sequence/address echoed' if bad is None else bad)
     ps = R.paths('send_resp_0', 'C08.h', R.engine({'req2resp'}))
     if ps is not None:
@@ -452,6 +481,7 @@ def rule_h(ck, R):
                 bad = 'does not echo sequence/address'
             if eh[0].args[4] != ('v', 'code'):
                 bad = 'meta field is %s, not the response code' % fmt(eh[0].args[4])
+            bad = bad or emitted_header(eh[0], smc[0])
         ck.verdict(bad is None, 'C08.h', 'send_resp_0', R.where('send_resp_0'), 'no payload, block size 0, code in the meta field, sequence/address echoed' if bad is None else bad)
     # req2resp
     ps = R.paths('req2resp', 'C08.h', R.engine(set()))
@@ -469,6 +499,9 @@ def rule_h(ck, R):
         for p in ps:
             eh = p.calls('encode_header')
             if not eh or eh[0].args[3] != C(E['RP_FRAME_META']) or eh[0].args[4] != ('v', 'meta') or eh[0].args[7] != C(0):
+                ok = False
+            smc = p.calls('send_memory')
+            if eh and (len(smc) != 1 or emitted_header(eh[0], smc[0])):
                 ok = False
         ck.verdict(ok, 'C08.h', 'regp_resp_meta', R.where('regp_resp_meta'), 'META frame with the code in the meta field and no payload' if ok else 'META emitter malformed')
 
